@@ -263,11 +263,63 @@ void vf_run(const uint8_t *data, size_t len)
     while (cur.remaining() >= 1) {
         uint8_t b = cur.u8();
         switch (kind) {
-        case K_GUARDED: { struct cstl_guarded_ptr t; cstl_guarded_ptr_init(&t); LIB(cstl_guarded_ptr_swap(&G[0], &t)); LIB(cstl_guarded_ptr_swap(&t, &G[0])); (void)b; break; }
-        case K_UNIQUE: { cstl_unique_ptr_t t; cstl_unique_ptr_init(&t); LIB(cstl_unique_ptr_swap(&U[0], &t)); LIB(cstl_unique_ptr_swap(&t, &U[0])); break; }
-        case K_SHARED: { cstl_shared_ptr_t t; cstl_shared_ptr_init(&t); if (b & 1) { LIB(cstl_shared_ptr_share(&S[0], &t)); LIB(cstl_shared_ptr_reset(&t)); } else { LIB(cstl_shared_ptr_swap(&S[0], &t)); LIB(cstl_shared_ptr_swap(&t, &S[0])); } break; }
-        case K_WEAK: { cstl_weak_ptr_t t; cstl_weak_ptr_init(&t); LIB(cstl_weak_ptr_swap(&W[0], &t)); LIB(cstl_weak_ptr_swap(&t, &W[0])); break; }
-        case K_ARRAY: { cstl_array_t t; cstl_array_init(&t); if (state) { LIB(cstl_array_unslice(&A[0], &t)); LIB(cstl_array_reset(&t)); } break; }
+        // each object is used WHILE it sits in the place the provided function moved it to (a move that kept the
+        // old self-address would abort here), then moved back
+        case K_GUARDED: {
+            struct cstl_guarded_ptr t, t2;
+            cstl_guarded_ptr_init(&t);
+            LIB(cstl_guarded_ptr_swap(&G[0], &t));
+            LIB((void)cstl_guarded_ptr_get(&t)); LIB((void)cstl_guarded_ptr_get(&G[0]));
+            if (b & 2) { LIB(cstl_guarded_ptr_copy(&t2, &t)); LIB((void)cstl_guarded_ptr_get(&t2)); LIB((void)cstl_guarded_ptr_get_const(&t)); }
+            LIB(cstl_guarded_ptr_swap(&t, &G[0]));
+            LIB((void)cstl_guarded_ptr_get(&G[0]));
+            break;
+        }
+        case K_UNIQUE: {
+            cstl_unique_ptr_t t;
+            cstl_unique_ptr_init(&t);
+            LIB(cstl_unique_ptr_swap(&U[0], &t));
+            LIB((void)cstl_unique_ptr_get(&t)); LIB((void)cstl_unique_ptr_get(&U[0]));
+            LIB(cstl_unique_ptr_swap(&t, &U[0]));
+            LIB((void)cstl_unique_ptr_get(&U[0]));
+            break;
+        }
+        case K_SHARED: {
+            cstl_shared_ptr_t t;
+            cstl_shared_ptr_init(&t);
+            if (b & 1) { LIB(cstl_shared_ptr_share(&S[0], &t)); LIB((void)cstl_shared_ptr_get(&t)); LIB((void)cstl_shared_ptr_unique(&t)); LIB(cstl_shared_ptr_reset(&t)); }
+            else {
+                LIB(cstl_shared_ptr_swap(&S[0], &t));
+                LIB((void)cstl_shared_ptr_get(&t)); LIB((void)cstl_shared_ptr_get(&S[0])); LIB((void)cstl_shared_ptr_unique(&t));
+                LIB(cstl_shared_ptr_swap(&t, &S[0]));
+            }
+            LIB((void)cstl_shared_ptr_get(&S[0]));
+            break;
+        }
+        case K_WEAK: {
+            cstl_weak_ptr_t t;
+            cstl_shared_ptr_t l;
+            cstl_weak_ptr_init(&t);
+            cstl_shared_ptr_init(&l);
+            LIB(cstl_weak_ptr_swap(&W[0], &t));
+            LIB(cstl_weak_ptr_lock(&t, &l)); LIB(cstl_shared_ptr_reset(&l));
+            LIB(cstl_weak_ptr_lock(&W[0], &l)); LIB(cstl_shared_ptr_reset(&l));
+            LIB(cstl_weak_ptr_swap(&t, &W[0]));
+            LIB(cstl_weak_ptr_lock(&W[0], &l)); LIB(cstl_shared_ptr_reset(&l));
+            break;
+        }
+        case K_ARRAY: {
+            cstl_array_t t;
+            cstl_array_init(&t);
+            if (state) {
+                LIB(cstl_array_unslice(&A[0], &t));
+                LIB((void)cstl_array_size(&t)); LIB((void)cstl_array_data(&t));
+                if (b & 2) { LIB(cstl_array_slice(&t, 0, 0, &t)); LIB((void)cstl_array_data(&t)); }
+                LIB(cstl_array_reset(&t));
+            }
+            LIB((void)cstl_array_size(&A[0])); LIB((void)cstl_array_data(&A[0]));
+            break;
+        }
         }
         CNT("prefix_ops");
     }
